@@ -178,6 +178,7 @@ func runC03(tier string, seed uint64) {
 			for _, k := range keys {
 				s.Put(b, k, []byte("body-of-" + k)[:5+len(k)], nil)
 			}
+			var verKeys []string
 			var nested []string
 			if fs && len(keys) > 0 && si%2 == 0 {
 				// uploads one and two levels below a stored object: a file system cannot hold them and the
@@ -208,6 +209,21 @@ func runC03(tier string, seed uint64) {
 				for _, g := range []string{keys[0] + "g", "g/h", "gbh", keys[0] + "/g"} {
 					s.Put(b, g, []byte("ghost"), nil)
 					s.Delete(b, g)
+				}
+				if si%4 == 1 {
+					// removing the current version by its id makes the newest remaining one current (not the
+					// oldest): the key is listed with that version's size and ETag; when the newest remaining
+					// one is a delete marker the key is hidden again
+					vk := keys[0] + "v"
+					s.Put(b, vk, []byte("1"), nil)
+					s.Put(b, vk, []byte("22"), nil)
+					r3 := s.Put(b, vk, []byte("333"), nil)
+					s.DeleteVersion(b, vk, r3.Header.Get("X-Amz-Version-Id"))
+					s.Put(b, "gv/h", []byte("A"), nil)
+					s.Delete(b, "gv/h")
+					r2 := s.Put(b, "gv/h", []byte("BB"), nil)
+					s.DeleteVersion(b, "gv/h", r2.Header.Get("X-Amz-Version-Id"))
+					verKeys = []string{vk, "gv/h"}
 				}
 				if si%3 == 0 {
 					// deleted once more while versioning is suspended (alone and in a multi-object delete): a key
@@ -249,6 +265,9 @@ func runC03(tier string, seed uint64) {
 			for _, k := range nested {
 				s.Delete(b, k)
 			}
+			for _, k := range verKeys {
+				s.Delete(b, k)
+			}
 			for _, k := range keys {
 				s.Delete(b, k)
 			}
@@ -258,7 +277,7 @@ func runC03(tier string, seed uint64) {
 						s.DeleteVersion(b, k, v)
 					}
 					if len(keys) > 0 {
-						for _, g := range []string{keys[0] + "g", "g/h", "gbh", keys[0] + "/g"} {
+						for _, g := range append([]string{keys[0] + "g", "g/h", "gbh", keys[0] + "/g"}, verKeys...) {
 							s.DeleteVersion(b, g, v)
 						}
 					}
